@@ -4,9 +4,9 @@
 (* tool writes to / reads from sdkconfig files.                            *)
 (*                                                                         *)
 (* An sdkconfig file is abstracted to its sequence of assignment lines     *)
-(*   [n |-> name, v |-> value, d |-> TRUE iff preceded by `# default:`]    *)
-(* (`# CONFIG_X is not set` is the assignment v = "n"; comments, menu      *)
-(* headers and blank lines carry no information).                          *)
+(*   [n |-> name, v |-> value, d |-> TRUE iff preceded by `# default:`,    *)
+(*    u |-> TRUE iff written as `# CONFIG_X is not set` (then v = "n")]    *)
+(* (comments, menu headers and blank lines carry no information).          *)
 (*                                                                         *)
 (* Render      : Kconfig._config_contents()   (tree order, marker rule)    *)
 (* MinLines    : Kconfig._min_config_contents()/_is_min_config_sym()       *)
@@ -26,7 +26,8 @@ INSTANCE KEval
 (* Writing.                                                                *)
 Render(X, A, U, P) ==
   LET ws == SelectSeq(X.syms, LAMBDA n : A.core[n].written)
-  IN [k \in 1..Len(ws) |-> [n |-> ws[k], v |-> A.core[ws[k]].val, d |-> Marked(X, A, U, P, ws[k])]]
+  IN [k \in 1..Len(ws) |-> [n |-> ws[k], v |-> A.core[ws[k]].val, d |-> Marked(X, A, U, P, ws[k]),
+                             u |-> X.s[ws[k]].type = "bool" /\ A.core[ws[k]].val = "n"]]
 
 \* the value an option would get from its defaults alone (Symbol._str_default):
 \* bool: first default whose condition holds, raised by select and imply; others: an enabled
@@ -64,7 +65,8 @@ InMin(X, A, n) ==
 
 MinLines(X, A, U, P) ==
   LET ws == SelectSeq(X.syms, LAMBDA n : InMin(X, A, n) /\ A.core[n].written)
-  IN [k \in 1..Len(ws) |-> [n |-> ws[k], v |-> A.core[ws[k]].val, d |-> Marked(X, A, U, P, ws[k])]]
+  IN [k \in 1..Len(ws) |-> [n |-> ws[k], v |-> A.core[ws[k]].val, d |-> Marked(X, A, U, P, ws[k]),
+                             u |-> X.s[ws[k]].type = "bool" /\ A.core[ws[k]].val = "n"]]
 
 ----------------------------------------------------------------------------
 (* Edits.                                                                  *)
@@ -108,6 +110,7 @@ Resolve(X, R, ln) ==   \* the line after deprecated-name resolution, or "missing
 LoadStep(X, R, acc, ln0) ==
   LET ln == Resolve(X, R, ln0) IN
   IF ~ln.ok THEN [acc EXCEPT !.missing = Append(@, <<ln.n, ln.v>>)]
+  ELSE IF ln0.u /\ X.s[ln.n].type # "bool" THEN acc   \* `is not set` only means something for bools
   ELSE IF ~ValidFor(X.s[ln.n].type, ln.v) THEN acc
   ELSE IF ln.d THEN acc                       \* a default-marked entry is not a user value
   ELSE IF X.s[ln.n].ch # "" THEN [acc EXCEPT !.chq = Append(@, <<ln.n, ln.v>>)]
@@ -132,6 +135,15 @@ Load(X, R, F, replace, U, P) ==
        ELSE [U |-> a2.U, P |-> a2.P, missing |-> a2.missing]
 
 NoUser(X) == [U |-> [n \in DOMAIN X.s |-> NoVal], P |-> [c \in DOMAIN X.c |-> NoVal]]
+
+\* C11: the same file with every deprecated name replaced, in place, by the equivalent
+\* assignment to its replacement (bool values inverted for `!` renames)
+RewriteLine(X, R, ln) ==
+  IF ln.n \in DOMAIN X.s \/ ln.n \notin DOMAIN R \/ R[ln.n].new \notin DOMAIN X.s THEN ln
+  ELSE LET r == Resolve(X, R, ln)
+           isb == X.s[r.n].type = "bool"
+       IN [n |-> r.n, v |-> r.v, d |-> FALSE, u |-> IF isb THEN r.v = "n" ELSE ln.u]
+Rewrite(X, R, F) == [k \in 1..Len(F) |-> RewriteLine(X, R, F[k])]
 
 ----------------------------------------------------------------------------
 (* One step of a session.  st = [U, P]; act is a record:                   *)
